@@ -25,10 +25,12 @@ VARIABLES tid, l,
           mq,      \* queue contents reconstructed from QGet / QPut
           mopen,   \* sockets dialled and not yet close()d by the client
           minj,    \* an interrupt (BaseException) was injected since the current request / disposal began
-          mseen    \* number of Quiesce + Probe events seen (a trace without them proves nothing)
-tvars == <<tid, l, mq, mopen, minj, mseen>>
+          mseen,   \* number of Quiesce + Probe events seen (a trace without them proves nothing)
+          mlive,   \* the pool has been constructed (its constructor's own puts are not give-backs)
+          mleases  \* checkouts minus give-backs since construction
+tvars == <<tid, l, mq, mopen, minj, mseen, mlive, mleases>>
 
-TInit == tid = 1 /\ l = 1 /\ mq = <<>> /\ mopen = {} /\ minj = FALSE /\ mseen = 0
+TInit == tid = 1 /\ l = 1 /\ mq = <<>> /\ mopen = {} /\ minj = FALSE /\ mseen = 0 /\ mlive = FALSE /\ mleases = 0
 
 SeqSet(s) == {s[i] : i \in 1..Len(s)}
 
@@ -46,6 +48,15 @@ InjAfter(i, e) ==
       [] e.ev \in {"ReqStart", "DispStart", "ReqEnd", "DispEnd"} -> FALSE
       [] OTHER -> i
 
+\* a checkout is an item taken, or (non-blocking pool) the Empty that makes urlopen build a fresh connection;
+\* a give-back is any _put_conn, whether the item entered the queue or was discarded as surplus
+LeasesAfter(live, n, e, block) ==
+    IF ~live THEN n
+    ELSE CASE e.ev = "QGet" /\ e.res = "ok" -> n + 1
+           [] e.ev = "QGet" /\ e.res = "empty" /\ ~block -> n + 1
+           [] e.ev = "QPut" -> n - 1
+           [] OTHER -> n
+
 \* the recording queue and the monitor's queue semantics must agree (else the harness is broken)
 Consistent(q, e, n) ==
     CASE e.ev = "QPut" /\ e.res = "ok"   -> QHasRoom(q, n)
@@ -56,10 +67,12 @@ Consistent(q, e, n) ==
       [] OTHER -> TRUE
 
 \* Rules, evaluated after the event -------------------------------------------------------------
-Clause(c, q, q2, o2, i, e) ==
+Clause(c, q, q2, o2, i, e, live, ls2) ==
     IF ~Consistent(q, e, c.n) THEN "RecorderInconsistent"
+    ELSE IF e.ev = "Created" /\ ~SlotsRestoredOn(q2, c.n) THEN "SlotsRestored"
     ELSE IF ~NoDuplicateOn(q2) THEN "NoDuplicate"
     ELSE IF ~BlockBoundOn(c.block, o2, c.n) THEN "BlockBound"
+    ELSE IF live /\ ~SlotsConservedOn(Len(q2), ls2, c.n, c.block) THEN "SlotsConserved"
     ELSE IF e.ev \in {"ReqEnd", "DispEnd"} /\ ~InterruptsOn([res |-> e.res, cls |-> e.cls, inj |-> i])
          THEN "InterruptsPropagate"
     ELSE IF e.ev \in {"ReqEnd", "DispEnd"} /\ ~OnlyUrllib3On([res |-> e.res, cls |-> e.cls, inj |-> i])
@@ -74,20 +87,23 @@ Clause(c, q, q2, o2, i, e) ==
     ELSE IF e.ev = "Probe" /\ ~c.block /\ ~SlotsRestoredOn([x \in 1..e.n |-> 0], c.n) THEN "SlotsRestored"
     ELSE "ok"
 
-NextTrace == tid' = tid + 1 /\ l' = 1 /\ mq' = <<>> /\ mopen' = {} /\ minj' = FALSE /\ mseen' = 0
+NextTrace == /\ tid' = tid + 1 /\ l' = 1 /\ mq' = <<>> /\ mopen' = {} /\ minj' = FALSE /\ mseen' = 0
+             /\ mlive' = FALSE /\ mleases' = 0
 
 TNext ==
     /\ tid <= Len(Traces)
     /\ LET tr == Traces[tid] IN
        IF l > Len(tr.events)
-       THEN /\ PrintT(<<"VERDICT", tid, l, IF mseen = 2 THEN "ok" ELSE "Incomplete">>)
+       THEN /\ PrintT(<<"VERDICT", tid, l, IF mseen = 2 /\ mlive THEN "ok" ELSE "Incomplete">>)
             /\ NextTrace
        ELSE LET e  == tr.events[l]
                 q2 == QueueAfter(mq, e, tr.cfg.n)
                 o2 == OpenAfter(mopen, e)
-                c  == Clause(tr.cfg, mq, q2, o2, minj, e) IN
+                ls2 == LeasesAfter(mlive, mleases, e, tr.cfg.block)
+                c  == Clause(tr.cfg, mq, q2, o2, minj, e, mlive, ls2) IN
             IF c = "ok"
             THEN /\ mq' = q2 /\ mopen' = o2 /\ minj' = InjAfter(minj, e)
+                 /\ mlive' = (mlive \/ e.ev = "Created") /\ mleases' = ls2
                  /\ mseen' = mseen + (IF e.ev \in {"Quiesce", "Probe"} THEN 1 ELSE 0)
                  /\ l' = l + 1 /\ tid' = tid
             ELSE PrintT(<<"VERDICT", tid, l, c>>) /\ NextTrace
@@ -97,7 +113,7 @@ Pinned == /\ cfg = [n |-> 1, block |-> FALSE, retries |-> "F", preload |-> TRUE,
           /\ queue = <<>> /\ conns = <<>> /\ socks = <<>> /\ resp = <<>> /\ rof = <<>>
           /\ pc = "trace" /\ cur = 0 /\ plan = "" /\ att = <<>> /\ ret = RetryInit("F") /\ err = ""
           /\ clean = FALSE /\ rel = FALSE /\ pend = "" /\ rcur = 0 /\ nd = 0 /\ inj = FALSE
-          /\ outs = <<>> /\ hist = <<>> /\ ncut = 0
+          /\ outs = <<>> /\ hist = <<>> /\ ncut = 0 /\ leases = 0
 
 TSpec == (TInit /\ Pinned) /\ [][TNext /\ UNCHANGED vars]_<<tvars, vars>>
 =============================================================================
